@@ -773,6 +773,16 @@ WRONG_FORMS = {
         ('UnitQuaternion(left.binop(right, lambda x, y: qqmul(x, y)))', 'the right operand is not conjugated: this is the product, not the quotient'),
         ('UnitQuaternion(left.binop(right, lambda x, y: qqmul(conj(y), x)))', 'conj(y) multiplies on the left: q2^-1 q1 instead of q1 q2^-1')],
     'twist inverse is negation': [('self.__class__([t for t in self.data])', 'inverse returns the twist itself')],
+    'twist of a pose is its logarithm': [('Twist3(self.log())', 'the twist=True option is not passed to log(): the matrix logarithm is handed to the twist constructor'),
+                                         ('Twist2(self.log())', 'the twist=True option is not passed to log(): the matrix logarithm is handed to the twist constructor'),
+                                         ('Twist3(self.log(twist=False))', 'log(twist=False) returns the matrix, not the twist vector'),
+                                         ('Twist2(self.log(twist=False))', 'log(twist=False) returns the matrix, not the twist vector')],
+    'twist of a pose': [('Twist3(self.log())', 'the twist=True option is not passed to log()'), ('Twist2(self.log())', 'the twist=True option is not passed to log()')],
+    # interpolation routes: start and end exchanged (s=0 then gives the end pose), or the interpolation variable dropped
+    '2D vector s -> trinterp2 per s': [('self.__class__([trinterp2(self.A, start, s=_s) for _s in s])', 'start and end pose are exchanged: s = 0 gives the end pose')],
+    '2D sequence -> trinterp2 per element': [('self.__class__([trinterp2(x, start, s=s[0]) for x in self.data])', 'start and end pose are exchanged: s = 0 gives the end pose')],
+    '3D vector s -> trinterp per s': [('self.__class__([trinterp(self.A, start, s=_s) for _s in s])', 'start and end pose are exchanged: s = 0 gives the end pose')],
+    '3D sequence -> trinterp per element': [('self.__class__([trinterp(x, start, s=s[0]) for x in self.data])', 'start and end pose are exchanged: s = 0 gives the end pose')],
     '3D logarithm of every element with the twist option': [('[trlog(x) for x in self.data]', 'the twist option is not passed to trlog: log(twist=True) returns matrices')],
     '2D logarithm of every element with the twist option': [('[trlog2(x) for x in self.data]', 'the twist option is not passed to trlog2: log(twist=True) returns matrices')],
 }
@@ -1280,6 +1290,12 @@ def _frame(run, key, o, a, ret_plain):
 def _frame_diagnose(run, cx, key, e, want_R, r):
     nm = Normaliser(rename=cx.rename)
     b = matches('stack((_C0, _C1, _C2), axis=_AX)', e) or matches('stack([_C0, _C1, _C2], axis=_AX)', e)
+    if b is None:
+        b0 = matches('stack((_C0, _C1, _C2))', e) or matches('stack([_C0, _C1, _C2])', e) or matches('array((_C0, _C1, _C2))', e) or \
+            matches('array([_C0, _C1, _C2])', e) or matches('vstack((_C0, _C1, _C2))', e)
+        if b0 is not None:
+            b = dict(b0)
+            b['_AX'] = ast.Constant(value=0)      # the default: the vectors become the ROWS
     if b is None:
         run.error('R16: %s: result is not stack((c0, c1, c2), axis=1): %s' % (key, src(e, 70)))
         return
@@ -2323,8 +2339,24 @@ def tables_c06(run):
                 fs = facts.get(node.id, frozenset())
                 se = any(fc[1] and matches('left.isSE', fc[2].ast) is not None for fc in fs)
                 so = any(fc[1] and matches('left.isSO', fc[2].ast) is not None for fc in fs) or any((not fc[1]) and matches('left.isSE', fc[2].ast) is not None for fc in fs)
+                # shape guards of the route: which operand shapes reach it
+                need = []
+                if 'sequence x matrix' in k:
+                    need = [('right.shape[0] == left.N', 'the points have the dimension of the pose'), ('len(left) == right.shape[1]', 'one column per pose')]
+                elif 'x matrix' in k:
+                    need = [('right.shape[0] == left.N', 'the points have the dimension of the pose'), ('len(left) == 1', 'a single pose')]
+                elif 'sequence x vector' in k:
+                    need = [('isvector(right, left.N)', 'the point has the dimension of the pose')]
+                elif 'x vector' in k:
+                    need = [('isvector(right, left.N)', 'the point has the dimension of the pose'), ('len(left) == 1', 'a single pose')]
+                lacking = [(p_, why) for (p_, why) in need if not any(fc[1] and matches(p_, canon(fi, fc[2].ast, inline=False)) is not None for fc in fs)]
                 if k.startswith('SE') and not se or k.startswith('SO') and not so:
                     run.violation(RULE, f.key, 'route ' + k, 'the %s route is not guarded by the matching isSE/isSO test' % k, f=f, node=r)
+                elif lacking:
+                    run.violation(RULE, f.key, 'route ' + k, 'the %s route is reached without the test %s (%s): operands of another shape are '
+                                  'transformed by it%s' % (k, lacking[0][0], lacking[0][1],
+                                                           ' -- e.g. a d x d array with as many ROWS as poses takes the pairwise route' if 'shape[1]' in lacking[0][0] else ''),
+                                  f=f, node=r)
                 else:
                     run.holds(RULE, f.key, 'route ' + k, 'R p + t through homogeneous lift-multiply-project' if k.startswith('SE') else 'R p', f=f, node=r)
     # batched spelling of the sequence x matrix routes: einsum over the stacked pose matrices (k, r, c) and the points (c, k)
@@ -2419,6 +2451,11 @@ SIBLINGS = [
 ]
 
 
+def parse_pat_norm(p_):
+    from ..pattern import parse_pat
+    return parse_pat(p_)
+
+
 def tables_c04(run):
     rule = 'R13'
     for (nm_, so3, se3, uq) in SIBLINGS:
@@ -2437,8 +2474,28 @@ def tables_c04(run):
                 # distinguish a dropped option (definite) from an unknown shape
                 txt = src(bad[0], 80)
                 dropped = [o for o in ('unit=unit', 'order=order', 't=t') if o in forms[0] and o not in ast.unparse(bad[0])]
+                # the same calls with the same arguments in another order (angvec2r(w, theta) for angvec2r(theta, w)): compare the bag of
+                # (callee, sorted positional arguments) of the return with that of the accepted form
+                def odump(x):
+                    # dump in which the positional arguments of every call are an unordered bag
+                    if isinstance(x, ast.Call):
+                        return 'call(%s; %s; %s)' % (odump(x.func), ','.join(sorted(odump(a) for a in x.args)),
+                                                     ','.join(sorted('%s=%s' % (k.arg, odump(k.value)) for k in x.keywords)))
+                    if isinstance(x, ast.AST):
+                        return '%s(%s)' % (type(x).__name__, ','.join(odump(v) if isinstance(v, ast.AST) else ('[' + ','.join(odump(y) if isinstance(y, ast.AST) else repr(y) for y in v) + ']'
+                                                                                                              if isinstance(v, list) else repr(v))
+                                                                      for fn_, v in ast.iter_fields(x) if fn_ not in ('ctx', 'lineno', 'col_offset', 'end_lineno', 'end_col_offset')))
+                    return repr(x)
+                reordered = None
+                for p_ in forms:
+                    pp = parse_pat_norm(p_)
+                    if odump(pp) == odump(bad[0]) and ast.dump(pp) != ast.dump(bad[0]):
+                        reordered = p_
                 if dropped:
                     run.violation(rule, key, 'shared constructor ' + nm_, 'the option %s is not passed on to the base function: %s' % (', '.join(dropped), txt), f=f)
+                elif reordered:
+                    run.violation(rule, key, 'shared constructor ' + nm_, 'the arguments of the base function are passed in another order: %s, where the sibling '
+                                  'classes call %s' % (txt, reordered), f=f)
                 else:
                     run.error('R13: %s: return %s has none of the recognised sibling forms (%s)' % (key, txt, forms[0]))
             else:
